@@ -312,10 +312,8 @@ theorem stopAll_inv {m : MServer} (h : MInv m) (cleanup : Bool) : MInv (m.stopAl
       | none => rw [hp] at he; cases he
       | some pl => rw [ho] at hd; rw [hp] at he; cases hd; cases he; exact h.uniq d e ol pl ho hp hid
 
-theorem conn_inv {m : MServer} (h : MInv m) : MInv (m.step .conn) := by
-  simp only [MServer.step]
-  split
-  · exact h
+theorem accept_inv {m : MServer} (h : MInv m) : MInv m.accept := by
+  unfold MServer.accept
   · have hnew : SInv ({} : Server) := sinv_init
     cases hfree : m.cab.free with
     | nil =>
@@ -483,18 +481,57 @@ theorem conn_inv {m : MServer} (h : MInv m) : MInv (m.step .conn) := by
         · rename_i h2; subst h2; exact absurd hq hnd.1
         · exact h.freeNone q (by rw [hfree]; exact List.mem_cons_of_mem _ hq)
 
+theorem conn_inv {m : MServer} (h : MInv m) : MInv (m.step .conn) := by
+  simp only [MServer.step]
+  split
+  · exact h
+  · exact accept_inv h
+
+theorem acceptN_inv (n : Nat) {m : MServer} (h : MInv m) : MInv (MServer.acceptN n m) := by
+  induction n generalizing m with
+  | zero => exact h
+  | succ n ih => exact ih (accept_inv h)
+
 theorem dropCtx_sinv {s : Server} (h : SInv s) (i : Nat) : SInv (MServer.dropCtx s i) :=
   sinv_update h rfl rfl (fun _ hj => (List.mem_filter.mp hj).1) (fun hc => h.closed hc)
+
+/-- the Context of request `i` of a connection that is gone is released: the record loses the entry, nothing else changes -/
+theorem dropCtx_gone_inv {m : MServer} (h : MInv m) {c : Nat} {cl : Client} (hc : m.clients[c]? = some cl) (i : Nat)
+    (hv' : cl.srv.pipe.valid = false) : MInv (m.setSrv c (MServer.dropCtx cl.srv i)) := by
+  have hw : ({ m.setSrv c (MServer.dropCtx cl.srv i) with wq := m.wq } : MServer) = m.setSrv c (MServer.dropCtx cl.srv i) := by
+    simp only [MServer.setSrv, hc]
+  have := setSrv_sync_inv h hc (MServer.dropCtx cl.srv i) m.wq (dropCtx_sinv (h.sinv c cl hc) i) (fun _ => by simpa [MServer.dropCtx] using hv')
+  rw [hw] at this
+  have hs : (m.setSrv c (MServer.dropCtx cl.srv i)).sync c = m.setSrv c (MServer.dropCtx cl.srv i) := by
+    simp only [MServer.sync, setSrv_clients hc, if_true]
+    have hvv : (MServer.dropCtx cl.srv i).pipe.valid = false := by simpa [MServer.dropCtx] using hv'
+    simp only [hvv, Bool.false_eq_true, if_false]
+    have hl : m.cab.lookup cl.tok = none := by
+      have := target_own h hc
+      simp only [MServer.target, hc, Option.bind_some, hv', Bool.false_eq_true, if_false] at this
+      exact this
+    have hcab : (m.setSrv c (MServer.dropCtx cl.srv i)).cab = m.cab := by simp only [MServer.setSrv, hc]
+    have hr : (m.setSrv c (MServer.dropCtx cl.srv i)).cab.release cl.tok = (m.setSrv c (MServer.dropCtx cl.srv i)).cab := by
+      rw [hcab]; simp [Cab.release, hl]
+    rw [hr]
+  rw [hs] at this; exact this
 
 theorem step_minv {m : MServer} (h : MInv m) (op : MOp) : MInv (m.step op) := by
   cases op with
   | conn => exact conn_inv h
-  | start =>
+  | connq =>
     simp only [MServer.step]
     split
     · exact h
     · split
       · exact ⟨h.sinv, h.cell, h.live, h.ids, h.uniq, h.freeNodup, h.freeNone, h.noReset⟩
+      · exact h
+  | start =>
+    simp only [MServer.step]
+    split
+    · exact h
+    · split
+      · exact acceptN_inv _ ⟨h.sinv, h.cell, h.live, h.ids, h.uniq, h.freeNodup, h.freeNone, h.noReset⟩
       · exact h
   | stop cl =>
     simp only [MServer.step]
@@ -556,7 +593,23 @@ theorem step_minv {m : MServer} (h : MInv m) (op : MOp) : MInv (m.step op) := by
           · exact hgen (.seg b)
           · exact stopAll_inv (hgen (.seg b)) _
         | script i sc => exact hgen _
-        | cclose pre cf => exact hgen _
+        | cclose pre cf =>
+          cases pre with
+          | none => exact hgen _
+          | some p =>
+            obtain ⟨i, r⟩ := p
+            dsimp only
+            split
+            · exact h
+            · rw [target_own h hc]
+              by_cases hv : cl.srv.pipe.valid = true
+              · simp only [hv, if_true]; exact hgen _
+              · have hv' : cl.srv.pipe.valid = false := by cases hh : cl.srv.pipe.valid <;> simp_all
+                simp only [hv', Bool.false_eq_true, if_false]
+                have h1 := dropCtx_gone_inv h hc i hv'
+                have hc1 : (m.setSrv c (MServer.dropCtx cl.srv i)).clients[c]? = some { cl with srv := MServer.dropCtx cl.srv i } := by
+                  rw [setSrv_clients hc]; simp
+                exact withWq_sync_inv h1 hc1 _ (fun s hs => step_sinv s _ hs) (fun s hs => step_dead s _ hs)
         | chalf => exact hgen _
         | wfail => exact hgen _
         | rerr => exact hgen _
@@ -623,7 +676,20 @@ theorem on_frame {m : MServer} (h : MInv m) (c d : Nat) (op : SrvOp) (hd : d ≠
         | none => exact hgen _
         | some x => rw [hs] at hns; cases hns
       | script i sc => exact hgen _
-      | cclose pre cf => exact hgen _
+      | cclose pre cf =>
+        cases pre with
+        | none => exact hgen _
+        | some p =>
+          obtain ⟨i, r⟩ := p
+          dsimp only
+          split
+          · rfl
+          · rw [target_own h hc]
+            by_cases hv : cl.srv.pipe.valid = true
+            · simp only [hv, if_true]; exact hgen _
+            · have hv' : cl.srv.pipe.valid = false := by cases hh : cl.srv.pipe.valid <;> simp_all
+              simp only [hv', Bool.false_eq_true, if_false]
+              rw [sync_clients, withWq_clients_ne hd, setSrv_clients hc]; simp [Ne.symm hd]
       | chalf => exact hgen _
       | wfail => exact hgen _
       | rerr => exact hgen _
@@ -652,5 +718,131 @@ theorem stopAll_dead (m : MServer) (cleanup : Bool) (d : Nat) (dl : Client) (hd 
   cases ho : m.clients[d]? with
   | none => rw [ho] at hd; cases hd
   | some ol => rw [ho] at hd; cases hd; exact sstop_dead _
+
+/-! ### the listen backlog -/
+
+theorem setSrv_length (m : MServer) (c : Nat) (s : Server) : (m.setSrv c s).clients.length = m.clients.length := by
+  unfold MServer.setSrv
+  split <;> simp
+
+theorem withWq_length (m : MServer) (c : Nat) (f : Server → Server) : (m.withWq c f).clients.length = m.clients.length := by
+  unfold MServer.withWq
+  split
+  · rfl
+  · dsimp only
+    split
+    · show (m.setSrv c _).clients.length = _
+      exact setSrv_length _ _ _
+    · exact setSrv_length _ _ _
+
+theorem stopAll_length (m : MServer) (cleanup : Bool) : (m.stopAll cleanup).clients.length = m.clients.length := by
+  simp [MServer.stopAll]
+
+/-- an event of a connection never adds or removes a connection record -/
+theorem on_length (m : MServer) (c : Nat) (op : SrvOp) : (m.step (.on c op)).clients.length = m.clients.length := by
+  simp only [MServer.step]
+  split
+  · rfl
+  · split
+    · rfl
+    · rename_i cl hc
+      have hgen : ∀ o : SrvOp, ((m.withWq c (·.step o)).sync c).clients.length = m.clients.length := fun o => by
+        rw [sync_clients]; exact withWq_length _ _ _
+      cases op with
+      | wq q => rfl
+      | sstop => rfl
+      | done i r =>
+        dsimp only
+        split
+        · rfl
+        · split
+          · exact setSrv_length _ _ _
+          · split
+            · exact hgen _
+            · rw [sync_clients, withWq_length, setSrv_length]
+      | seg b =>
+        dsimp only
+        split
+        · exact hgen _
+        · rw [stopAll_length]; exact hgen _
+      | script i sc => exact hgen _
+      | cclose pre cf =>
+        cases pre with
+        | none => exact hgen _
+        | some p =>
+          obtain ⟨i, r⟩ := p
+          dsimp only
+          split
+          · rfl
+          · split
+            · rw [sync_clients, withWq_length, setSrv_length]
+            · split
+              · exact hgen _
+              · rw [sync_clients, withWq_length, sync_clients, withWq_length, setSrv_length]
+      | chalf => exact hgen _
+      | wfail => exact hgen _
+      | rerr => exact hgen _
+
+/-- `n` accepts append `n` fresh records and touch nothing else -/
+theorem acceptN_spec (n : Nat) (m : MServer) :
+    ∃ new : List Client, (MServer.acceptN n m).clients = m.clients ++ new ∧ new.length = n ∧ (∀ x ∈ new, x.srv.hist = [] ∧ x.srv.pipe = {} ∧ x.srv.outstanding = []) ∧
+      (MServer.acceptN n m).state = m.state ∧ (MServer.acceptN n m).pending = m.pending ∧ (MServer.acceptN n m).wq = m.wq := by
+  induction n generalizing m with
+  | zero => exact ⟨[], by simp [MServer.acceptN], rfl, by simp, rfl, rfl, rfl⟩
+  | succ n ih =>
+    obtain ⟨new, h1, h2, h3, h4, h5, h6⟩ := ih m.accept
+    refine ⟨⟨(m.cab.alloc m.clients.length).2, {}⟩ :: new, ?_, by simp [h2], ?_, ?_, ?_, ?_⟩
+    · simp only [MServer.acceptN]; rw [h1]; simp [MServer.accept]
+    · intro x hx
+      rcases List.mem_cons.mp hx with hx | hx
+      · subst hx; exact ⟨rfl, rfl, rfl⟩
+      · exact h3 x hx
+    · simp only [MServer.acceptN]; rw [h4]; rfl
+    · simp only [MServer.acceptN]; rw [h5]; rfl
+    · simp only [MServer.acceptN]; rw [h6]; rfl
+
+/-! ### a commit in the loop pass of the peer's close -/
+
+theorem cclose_none_written (s : Server) (cf : Bool) : (s.step (.cclose none cf)).pipe.written = s.pipe.written := by
+  simp only [Server.step]
+  split
+  · rfl
+  · simp only [Server.cclose]
+    split
+    · rfl
+    · simp only [Option.getD_some, Server.emit, Pipe.run, List.foldl_cons, List.foldl_nil, Pipe.step, Pipe.peerClosed]
+      split
+      · rfl
+      · rfl
+
+theorem withWq_self_written {m : MServer} {c : Nat} {cl : Client} (hc : m.clients[c]? = some cl) (f : Server → Server)
+    (hf : ∀ s, (f s).pipe.written = s.pipe.written) :
+    ((m.withWq c f).clients[c]?).map (·.srv.pipe.written) = some cl.srv.pipe.written := by
+  unfold MServer.withWq
+  rw [hc]
+  dsimp only
+  split
+  · show ((m.setSrv c _).clients[c]?).map _ = _
+    rw [setSrv_clients hc]; simp [hf]
+  · rw [setSrv_clients hc]; simp [hf]
+theorem close_commit_gone {m : MServer} (h : MInv m) (c i : Nat) (r : Respond) (cf : Bool) (cl : Client) (hc : m.clients[c]? = some cl)
+    (hgone : cl.srv.pipe.valid = false) (d : Nat) :
+    ((m.step (.on c (.cclose (some (i, r)) cf))).clients[d]?).map (·.srv.pipe.written) = (m.clients[d]?).map (·.srv.pipe.written) := by
+  by_cases hd : d = c
+  · subst hd
+    simp only [MServer.step]
+    split
+    · rfl
+    · rw [hc]
+      dsimp only
+      split
+      · rw [hc]
+      · rw [target_own h hc]
+        simp only [hgone, Bool.false_eq_true, if_false]
+        rw [sync_clients]
+        have hc1 : (m.setSrv d (MServer.dropCtx cl.srv i)).clients[d]? = some { cl with srv := MServer.dropCtx cl.srv i } := by
+          rw [setSrv_clients hc]; simp
+        rw [withWq_self_written hc1 _ (fun s => cclose_none_written s cf)]; simp [MServer.dropCtx]
+  · rw [on_frame h c d _ hd rfl]
 
 end Tbox.C12
